@@ -296,7 +296,7 @@ def run_check(prop, tier, seed, repo='/repo'):
     model_exe = None
     model_err = None
     try:
-        model_exe = coqlib.build_model_driver(prop.model or prop.id)
+        model_exe = coqlib.build_model_driver(prop.model or prop.id, repo)
     except RuntimeError as e:
         model_err = str(e)
     known = [k for k in load_known() if k.get('property') == prop.id and k.get('status') == 'open']
@@ -442,7 +442,7 @@ def replay(prop, path, repo='/repo'):
         print('replay file names a broken proof obligation / correspondence; re-running the check shows it')
         return 1
     impl_exe, _ = repolib.build_driver(prop.driver, repo)
-    model_exe = coqlib.build_model_driver(prop.model or prop.id)
+    model_exe = coqlib.build_model_driver(prop.model or prop.id, repo)
     out = Outcome()
     c = Case(lines, 'replay')
     mism, fails = evaluate(prop, impl_exe, model_exe, [c], out)
